@@ -11,6 +11,7 @@ dirty reloads). Oracles: sim.ref.DatasetRef + a dictionary model of the persiste
 import copy
 import csv
 import io
+import os
 
 import numpy as np
 
@@ -81,7 +82,8 @@ EXPECTED_PROBES = {
             'queried_after_reload', 'wmi_file_left_by_earlier_load'],
     'C06': ['row_table', 'unknown_channel', 'empty_spike_list', 'waveform_route', 'tf_row_table',
             'unsorted_spikes', 'same_table_densified_twice', 'very_large_unknown_channel_id',
-            'minus_one_inside_column_rows', 'waveform_route_request_with_absent_spikes'],
+            'minus_one_inside_column_rows', 'waveform_route_request_with_absent_spikes',
+            'waveform_route_two_spikes'],
     'C08': ['multi_template_cluster', 'empty_id', 'undo', 'dirty_reload', 'highest_template_unused',
             'single_spike_cluster', 'tie_in_spike_counts'],
     'C09': ['empty_highest_id', 'curated', 'depths', 'zero_positive_part', 'batch_boundary_size'],
@@ -109,7 +111,8 @@ def _gen_values(rng, ids):
             continue
         k = kind if kind != 'mixed' else rng.choice(['int', 'float', 'str'])
         if k == 'int':
-            vals[str(c)] = rng.choice([0, 1, -3, 42, 10 ** 12, rng.randint(-100, 100)])
+            vals[str(c)] = rng.choice([0, 1, -3, 42, 10 ** 12, rng.randint(-100, 100),
+                                       2 ** 53 + 1, 1700000000123456789, -(2 ** 63) + 3])
         elif k == 'float':
             vals[str(c)] = rng.choice([0.5, -1.25, 3.0, 1e-5, 123.456, 1e20,
                                        round(rng.uniform(-10, 10), 4)])
@@ -142,6 +145,8 @@ def gen(rng, prop, tier):
             cfg['raw'] = None
             cfg['knobs'].pop('chunk', None)
             cfg['alf_times_f32'] = rng.choice([0, 1000, 2 ** 23 + 11, 2 ** 23 + 2 ** 22 + 5])
+        if p['raw'] and rng.random() < 0.15:
+            cfg['decoy_cwd'] = True
         if any(po['kind'] == 'nan_column' for po in cfg['poison']) and rng.random() < 0.6:
             # ... in a curated dataset: the loader computes cluster waveforms from the templates
             cfg['curation'] = world.gen_curation_ops(rng, rng.randint(1, 3))
@@ -311,11 +316,17 @@ def gen(rng, prop, tier):
             # the assignments live under their ALF name only
             cfg['names']['sclusters'] = 'alf'
             p['sclusters'] = True
+        if prop == 'C03' and cfg['raw'] and cfg['raw']['dtype'] in ('float32', 'float64') \
+                and rng.random() < 0.25:
+            cfg['raw']['nonfinite'] = [[rng.random(), rng.randrange(64)]
+                                       for _ in range(rng.randint(1, 4))]
         ops = [{'op': 'load'}]
         if prop == 'C03':
             for _ in range(rng.randint(1, 3)):
                 ops.append({'op': 'save_subset', 'n': rng.choice([1, 3, 5, 50]),
                             'factor': rng.choice([1.0, 1.0, 2.5, 0.5])})
+                if rng.random() < 0.15:
+                    ops[-1]['crash_after'] = rng.choice([0, 1, 2, 5, 10, 30])
                 if rng.random() < 0.5:
                     ops.append({'op': 'q_waveforms', 'seed': rng.randint(0, 10 ** 6)})
                 ops.append({'op': 'close'})
@@ -380,6 +391,8 @@ def gen(rng, prop, tier):
                 elif r < 0.68 and p['raw']:
                     ops.append({'op': 'save_subset', 'n': rng.choice([1, 3, 5, 50]),
                                 'factor': rng.choice([1.0, 2.5])})
+                    if rng.random() < 0.12:
+                        ops[-1]['crash_after'] = rng.choice([0, 1, 2, 5, 10, 30])
                 elif r < 0.85:
                     ops += [{'op': 'close'}]
                     if p['raw'] and rng.random() < 0.15:
@@ -496,6 +509,46 @@ def simplify(plan):
 # The world executor
 # --------------------------------------------------------------------------------------------------
 
+class _SimulatedReadError(IOError):
+    pass
+
+
+class _FailingTraces(object):
+    """The model's raw data reader, failing with an I/O error after `budget` reads."""
+
+    def __init__(self, real, budget):
+        self._real = real
+        self._budget = budget
+
+    def __getattr__(self, name):
+        return getattr(self._real, name)
+
+    def __getitem__(self, item):
+        if self._budget <= 0:
+            raise _SimulatedReadError('simulated read error on the raw data')
+        self._budget -= 1
+        return self._real[item]
+
+
+def _win_close(got, exp, eps):
+    """Window comparison: finite values within a few ulps of the recording's float type,
+    non-finite samples (saturated or corrupt samples of a float recording) reproduced as they
+    are."""
+    got = np.asarray(got, dtype=np.float64)
+    exp = np.asarray(exp, dtype=np.float64)
+    if got.shape != exp.shape:
+        return False
+    fin = np.isfinite(exp)
+    if not np.array_equal(fin, np.isfinite(got)):
+        return False
+    if not np.array_equal(np.isnan(exp), np.isnan(got)):
+        return False
+    if not np.array_equal(exp[~fin & ~np.isnan(exp)], got[~fin & ~np.isnan(got)]):
+        return False
+    e, g_ = exp[fin], got[fin]
+    return bool(np.all(np.abs(g_ - e) <= 4 * eps * np.maximum(np.abs(e), np.abs(g_))))
+
+
 def _aeq(a, b):
     a = np.asarray(a)
     b = np.asarray(b)
@@ -584,6 +637,22 @@ class DatasetWorld(object):
         if self.model is not None:
             self.model.close()
         before = world.snapshot(self.dir) if ctx.prop == 'C04' else None
+        cwd0 = None
+        if self.cfg.get('decoy_cwd') and self.A is not None:
+            # environment seam: the process's working directory is somewhere else and holds files
+            # named like the dataset's raw files (another recording), with other contents
+            decoy = self.dir.parent / 'cwd_elsewhere'
+            if not decoy.exists():
+                decoy.mkdir()
+                for f in self.dir.iterdir():
+                    if f.is_file() and f.name.startswith('raw'):
+                        b = f.read_bytes()
+                        (decoy / f.name).write_bytes(bytes((x + 1) % 256 for x in b[:4096])
+                                                     + b[4096:][::-1])
+            cwd0 = os.getcwd()
+            os.chdir(decoy)
+            ctx.probe('working_directory_holds_same_named_raw_file')
+            ctx.fault('decoy_working_directory')
         try:
             self.model = ctx.real('load', load_model, self.params, owners=LOAD_OWNERS)
         except RealCodeError:
@@ -594,6 +663,9 @@ class DatasetWorld(object):
                 ctx.skipped['load-refused-with-torn-store'] += 1
                 raise Discard('load refused with a torn store')
             raise
+        finally:
+            if cwd0 is not None:
+                os.chdir(cwd0)
         self.n_loads += 1
         ctx.op(kind)
         # durable effects of loading
@@ -745,6 +817,8 @@ class DatasetWorld(object):
                 ctx.probe('alf_label_in_names')
         if cfg.get('raw') and cfg['raw'].get('format', 'flat') != 'flat':
             ctx.probe('raw_' + cfg['raw']['format'])
+        if cfg.get('raw') and cfg['raw'].get('nonfinite'):
+            ctx.probe('nonfinite_raw_samples')
         if cfg['names']['times'] == 'alf' and not p.get('samples_file'):
             ctx.probe('alf_times_without_samples')
         if cfg['colvec']:
@@ -1134,6 +1208,9 @@ class DatasetWorld(object):
         stored = [int(s) for s in np.asarray(sw.spike_ids) if g.stemplates[int(s)] == t]
         if len(stored) < 2:
             return
+        if (op['t'] + 2 * op['k']) % 3 == 0:
+            stored = stored[:2]      # exactly two waveforms: only the first component is defined
+            ctx.probe('waveform_route_two_spikes')
         row = np.asarray(sw.spike_channels)[list(np.asarray(sw.spike_ids)).index(stored[0])]
         chans = [int(c) for c in row if c != -1][:op['k']]
         if not chans:
@@ -1481,9 +1558,36 @@ class DatasetWorld(object):
                 pass
         self.retired = []
         np.random.seed(op['n'] * 7919 + 13)
-        ctx.real('save_spikes_subset_waveforms', m.save_spikes_subset_waveforms,
-                 max_n_spikes_per_template=op['n'], sample2unit=op['factor'],
-                 owners=('C03', 'C10', 'C17'))
+        if op.get('crash_after') is not None:
+            # I/O fault: the raw data source fails after a number of reads, i.e. in the middle of
+            # the chunk-by-chunk export; the session dies there and a new one opens the directory
+            real = m.traces
+            m.traces = _FailingTraces(real, op['crash_after'])
+            crashed = False
+            try:
+                ctx.real('save_spikes_subset_waveforms', m.save_spikes_subset_waveforms,
+                         max_n_spikes_per_template=op['n'], sample2unit=op['factor'],
+                         owners=('C03', 'C10', 'C17'))
+            except RealCodeError as e:
+                if not isinstance(e.exc, _SimulatedReadError):
+                    raise
+                crashed = True
+            finally:
+                m.traces = real
+            if crashed:
+                ctx.fault('raw_read_error_during_export')
+                ctx.probe('export_interrupted_midway')
+                ctx.op('save_subset_crashed')
+                self.store = 'torn'
+                self.store_factor = op['factor']
+                self.close()
+                self.load('reload')
+                self.check_store(require=False)
+                return
+        else:
+            ctx.real('save_spikes_subset_waveforms', m.save_spikes_subset_waveforms,
+                     max_n_spikes_per_template=op['n'], sample2unit=op['factor'],
+                     owners=('C03', 'C10', 'C17'))
         self.store = 'ok'
         self.store_factor = op['factor']
         ctx.op('save_subset')
@@ -1578,7 +1682,7 @@ class DatasetWorld(object):
             exp = window_ref(self.A, g.samples[int(s)], cfg['nsw'], chs[i]).astype(np.float64) \
                 * self.store_factor
             got = np.asarray(W[i], dtype=np.float64)
-            ctx.check(np.all(np.abs(got - exp) <= 4 * eps * np.maximum(np.abs(exp), np.abs(got))),
+            ctx.check(_win_close(got, exp, eps),
                       'store-waveform-differs-from-raw-window',
                       lambda: {'spike': int(s), 'sample': int(g.samples[int(s)]),
                                'channels': chs[i].tolist()})
@@ -1633,8 +1737,7 @@ class DatasetWorld(object):
                         for s in spikes]).astype(np.float64) * factor
         gotf = np.asarray(got, dtype=np.float64)
         ctx.ev('q_waveforms', route, np.asarray(got))
-        ctx.check(gotf.shape == exp.shape and np.all(
-            np.abs(gotf - exp) <= 4 * eps * np.maximum(np.abs(exp), np.abs(gotf))),
+        ctx.check(_win_close(gotf, exp, eps),
             'model-waveform-differs-from-raw-window',
             lambda: {'route': route, 'spikes': [int(s) for s in spikes], 'chans': chans,
                      'store': self.store})
